@@ -18,7 +18,7 @@ confirm)
     else
       pkgdir=$(python3 -c "import json;print(json.load(open('$D/meta.json')).get('demo_pkg','.'))" 2>/dev/null || echo .)
       cp "$D"/demo*_test.go "$WT/$pkgdir/" 2>/dev/null
-      [ -d "$D/demo_testdata" ] && mkdir -p "$WT/$pkgdir/testdata" && cp -r "$D/demo_testdata/." "$WT/$pkgdir/testdata/"
+      [ -d "$D/demo_testdata" ] && mkdir -p "$WT/$pkgdir/testdata" && cp -r "$D/demo_testdata/." "$WT/$pkgdir/testdata/" && cp -r "$D/demo_testdata" "$WT/$pkgdir/demo_testdata"
       pat=$(grep -ho 'func Test[A-Za-z0-9_]*' "$D"/demo*_test.go | sed 's/func //' | paste -sd'|')
       ( cd "$WT/$pkgdir" && go test -vet=off -count=1 -run "^($pat)\$" . ) > "$WT/demo.$1.log" 2>&1; echo $?
     fi
